@@ -2,6 +2,7 @@ package enginesim
 
 import (
 	"context"
+	"errors"
 	"fmt"
 	"math/big"
 	"sort"
@@ -192,8 +193,23 @@ type ModelStore struct {
 	fold     *Fold
 }
 
+// ErrInjectedRead is what a store read answers when the plan makes it fail (a lost connection, a timeout).
+var ErrInjectedRead = errors.New("injected store read failure")
+
 func newModelStore(sim *Sim) *ModelStore {
 	return &ModelStore{sim: sim, fold: NewFold()}
+}
+
+// txByReference is the id of the first committed transaction carrying ref.
+func (m *ModelStore) txByReference(ref string) (int64, bool) {
+	m.mu.Lock()
+	defer m.mu.Unlock()
+	for _, k := range m.fold.TxOrder {
+		if t := m.fold.Txs[k]; t.Reference == ref {
+			return t.ID.Int64(), true
+		}
+	}
+	return 0, false
 }
 
 // Len is the number of persisted entries.
@@ -228,7 +244,15 @@ func (st *TxState) toCore() *ledger.Transaction {
 }
 
 func (m *ModelStore) GetBalance(ctx context.Context, address, asset string) (*big.Int, error) {
-	m.sim.gateCtx(ctx, "store.GetBalance:"+address+"/"+asset)
+	if m.sim.gateCtx(ctx, "store.GetBalance:"+address+"/"+asset).fault {
+		m.sim.gateCtx(ctx, "store.GetBalance.answer")
+		return nil, ErrInjectedRead
+	}
+	if err := ctx.Err(); err != nil {
+		// database/sql refuses to run a query for a caller that is gone
+		m.sim.gateCtx(ctx, "store.GetBalance.answer")
+		return nil, err
+	}
 	defer m.sim.gateCtx(ctx, "store.GetBalance.answer")
 	m.mu.Lock()
 	defer m.mu.Unlock()
@@ -236,7 +260,15 @@ func (m *ModelStore) GetBalance(ctx context.Context, address, asset string) (*bi
 }
 
 func (m *ModelStore) GetAccount(ctx context.Context, address string) (*ledger.Account, error) {
-	m.sim.gateCtx(ctx, "store.GetAccount:"+address)
+	if m.sim.gateCtx(ctx, "store.GetAccount:"+address).fault {
+		m.sim.gateCtx(ctx, "store.GetAccount.answer")
+		return nil, ErrInjectedRead
+	}
+	if err := ctx.Err(); err != nil {
+		// database/sql refuses to run a query for a caller that is gone
+		m.sim.gateCtx(ctx, "store.GetAccount.answer")
+		return nil, err
+	}
 	defer m.sim.gateCtx(ctx, "store.GetAccount.answer")
 	m.mu.Lock()
 	defer m.mu.Unlock()
@@ -278,7 +310,15 @@ func (m *ModelStore) GetLastTransaction(ctx context.Context) (*ledger.ExpandedTr
 }
 
 func (m *ModelStore) ReadLogWithIdempotencyKey(ctx context.Context, key string) (*ledger.ChainedLog, error) {
-	m.sim.gateCtx(ctx, "store.ReadLogWithIdempotencyKey")
+	if m.sim.gateCtx(ctx, "store.ReadLogWithIdempotencyKey").fault {
+		m.sim.gateCtx(ctx, "store.ReadLogWithIdempotencyKey.answer")
+		return nil, ErrInjectedRead
+	}
+	if err := ctx.Err(); err != nil {
+		// database/sql refuses to run a query for a caller that is gone
+		m.sim.gateCtx(ctx, "store.ReadLogWithIdempotencyKey.answer")
+		return nil, err
+	}
 	defer m.sim.gateCtx(ctx, "store.ReadLogWithIdempotencyKey.answer")
 	m.mu.Lock()
 	defer m.mu.Unlock()
@@ -296,7 +336,15 @@ func (m *ModelStore) ReadLogWithIdempotencyKey(ctx context.Context, key string) 
 }
 
 func (m *ModelStore) GetTransactionByReference(ctx context.Context, ref string) (*ledger.ExpandedTransaction, error) {
-	m.sim.gateCtx(ctx, "store.GetTransactionByReference")
+	if m.sim.gateCtx(ctx, "store.GetTransactionByReference").fault {
+		m.sim.gateCtx(ctx, "store.GetTransactionByReference.answer")
+		return nil, ErrInjectedRead
+	}
+	if err := ctx.Err(); err != nil {
+		// database/sql refuses to run a query for a caller that is gone
+		m.sim.gateCtx(ctx, "store.GetTransactionByReference.answer")
+		return nil, err
+	}
 	defer m.sim.gateCtx(ctx, "store.GetTransactionByReference.answer")
 	m.mu.Lock()
 	defer m.mu.Unlock()
@@ -309,7 +357,15 @@ func (m *ModelStore) GetTransactionByReference(ctx context.Context, ref string) 
 }
 
 func (m *ModelStore) GetTransaction(ctx context.Context, txID *big.Int) (*ledger.Transaction, error) {
-	m.sim.gateCtx(ctx, "store.GetTransaction")
+	if m.sim.gateCtx(ctx, "store.GetTransaction").fault {
+		m.sim.gateCtx(ctx, "store.GetTransaction.answer")
+		return nil, ErrInjectedRead
+	}
+	if err := ctx.Err(); err != nil {
+		// database/sql refuses to run a query for a caller that is gone
+		m.sim.gateCtx(ctx, "store.GetTransaction.answer")
+		return nil, err
+	}
 	defer m.sim.gateCtx(ctx, "store.GetTransaction.answer")
 	m.mu.Lock()
 	defer m.mu.Unlock()
